@@ -121,7 +121,7 @@ def main(pid, prop_module, theorems, own_props, rule, known_classes_doc):
                                    "functions (owner, name, trait)": vals.get("__off_fns"),
                                    "trait impls (type, trait)": vals.get("__off_impls"),
                                    "public fields": vals.get("__off_fields"),
-                                   "rules": "coq/ApiModel.v: K1-K7 (C14) / E1-E7 (C15); the table coq/ApiTable.v was regenerated from this tree"})
+                                   "rules": "coq/ApiModel.v: K1-K11 (C14) / E1-E8 (C15); the table coq/ApiTable.v was regenerated from this tree"})
         lines.append(f"VIOLATION property={pid} replay={fn}")
         violations += 1
     elif grid and any(cex.get(k) not in (None, "[]") for k in cex):
